@@ -122,6 +122,11 @@ func (r *Runner) Fabricate(g *rng.R, flavor string) *Submission {
 		flavor = "filler-v2"
 		s.Flavor = flavor
 	}
+	builderKind := ""
+	if strings.HasPrefix(flavor, "builder:") {
+		builderKind = flavor[len("builder:"):]
+		flavor = "builder"
+	}
 	slackArg := -1
 	if strings.HasPrefix(flavor, "exact-fill-v2:") {
 		fmt.Sscanf(flavor[len("exact-fill-v2:"):], "%d", &slackArg)
@@ -345,6 +350,9 @@ func (r *Runner) Fabricate(g *rng.R, flavor string) *Submission {
 		// any transaction kind of the chain generator, built on a linear node at the tip
 		b := r.W.Env.NewBuilder(chaingen.Blocks(r.W.T.Path(tip)))
 		kind := chaingen.TxKinds[g.Intn(len(chaingen.TxKinds))]
+		if builderKind != "" {
+			kind = builderKind
+		}
 		if !b.AddTx(g, kind) {
 			return nil
 		}
